@@ -145,7 +145,7 @@ fn spawn_watchdog(limit_s: u64) {
 impl Collector {
     pub fn new(prop: &str, a: &Args) -> Collector {
         if a.progress.is_some() {
-            let limit = std::env::var("VERIF_CASE_TIMEOUT_S").ok().and_then(|x| x.parse().ok()).unwrap_or(if a.thorough() { 60 } else { 15 });
+            let limit = std::env::var("VERIF_CASE_TIMEOUT_S").ok().and_then(|x| x.parse().ok()).unwrap_or(if a.thorough() { 120 } else { 45 });
             spawn_watchdog(limit);
         }
         let progress = a.progress.as_ref().map(|p| unsafe {
